@@ -157,6 +157,25 @@ def bad_lengths(n, others=()):
     return out
 
 
+def equal_products(a, b):
+    """pairs (x, y) other than (a, b) with the same product: sizes that differ mode by mode while every count
+    computed from their product (rows of a Khatri-Rao product, columns of a matricization) still agrees"""
+    n = a * b
+    return [(x, n // x) for x in range(1, n + 1) if n % x == 0 and (x, n // x) != (a, b)]
+
+
+def squeezed(vs):
+    """shape of np.atleast_1d(np.ones(vs).squeeze())"""
+    t = [e for e in vs if e != 1]
+    return t or [1]
+
+
+def mk_nd(r, shape):
+    """array of any order (0-d included) with small nonzero integer values"""
+    n = gen.numel(shape) if shape else 1
+    return np.array([r.choice([-2, -1, 1, 2, 3]) for _ in range(n)], dtype=float).reshape(tuple(shape))
+
+
 def bad_mode_lists(N, base):
     """ways of spoiling a list of modes `base` (all entries valid, distinct)."""
     out = []
@@ -270,11 +289,20 @@ class Ttv(Op):
                                 out.append(dict(base, excl=e2, bad="exclude " + what))
                         if dims is not None and not full:
                             out.append(dict(base, excl=[0], bad="dims and exclude_dims"))
+                        # a multiplicand that is an array of another order: a column / row / stacked vector of the
+                        # right length is a vector once its singleton axes are dropped (ktensor.ttv does so; the
+                        # other holders refuse it, which is not demanded either way); a MATRIX with the right number
+                        # of rows (1, 2, R = 2, n columns - it would broadcast against the weights) is not
+                        n = vecs[j]
+                        for vs in ([n, 1], [1, n], [n, 1, 1], [n, 2], [n, 3], [n, n], [2, n], [n, 1, 2], [1, n, 2]):
+                            vsh = [[m] for m in vecs]
+                            vsh[j] = vs
+                            out.append(dict(base, vshapes=vsh, bad=None if squeezed(vs) == [n] else "multiplicand not a vector"))
         return out
 
     def run(self, c, r):
         X = mk_holder(r, c["rep"], c["shape"], c.get("nnz"))
-        vecs = [mk_vec(r, n) for n in c["vecs"]]
+        vecs = [mk_nd(r, vs) for vs in c["vshapes"]] if c.get("vshapes") else [mk_vec(r, n) for n in c["vecs"]]
         return (lambda: X.ttv(vecs, arr(c["dims"]), arr(c["excl"]))), X
 
 
@@ -386,9 +414,34 @@ class Mttkrp(Op):
                                 out.append(dict(base, U=u2, bad="factor columns"))
                     out.append(dict(base, U=Us[:-1], bad="list length"))
                     out.append(dict(base, U=Us + [Us[-1]], bad="list length"))
+                    out += self.equal_product_rows(base, s, n, rep)
                 for n, what in ((N, "mode=N"), (N + 1, "mode>N"), (-1, "mode<0"), (-N, "mode=-N")):
                     if N >= 2:
                         out.append({"rep": rep, "shape": s, "U": [[m, R] for m in s], "n": n, "nnz": None, "bad": what})
+        # the same class on shapes that are always there (pairwise distinct extents, four modes)
+        for s in ([2, 3, 4], [2, 2, 2, 3], [3, 2, 2]):
+            for rep in self.reps:
+                R = rng.choice([1, 2, 3])
+                for n in range(len(s)):
+                    base = {"rep": rep, "shape": s, "U": [[m, R] for m in s], "n": n, "nnz": None}
+                    out.append(dict(base, bad=None))
+                    out += self.equal_product_rows(base, s, n, rep)
+        return out
+
+    @staticmethod
+    def equal_product_rows(base, s, n, rep):
+        """the row counts of TWO factors other than the n-th are wrong while their product is right (sizes swapped,
+        or refactored): the Khatri-Rao product of the factors still has as many rows as the matricized tensor has
+        columns, so nothing but the per-factor test sees it"""
+        out = []
+        others = [k for k in range(len(s)) if k != n]
+        for ka, kb in itertools.combinations(others, 2):
+            for x, y in equal_products(s[ka], s[kb]):
+                u2 = [list(u) for u in base["U"]]
+                u2[ka][0], u2[kb][0] = x, y
+                out.append(dict(base, U=u2, bad="factor rows, equal product"))
+                if rep == "sparse":
+                    out.append(dict(base, U=u2, nnz=0, bad="factor rows, equal product"))
         return out
 
     def run(self, c, r):
@@ -565,6 +618,25 @@ class Ttt(Op):
                         out.append(dict(base, xd=x2, yd=d2, bad="other " + what))
                     if k == 2:
                         out.append(dict(base, yd=yd[:1], bad="number of modes"))
+                        out += self.equal_product_extents(base)
+        # contracted extents that differ mode by mode while their products agree, on shapes that are always there
+        for sa, sb, xd, yd in (([2, 3, 4], [2, 3, 5], [0, 1], [0, 1]), ([2, 3, 4], [5, 4, 2], [0, 2], [2, 1]),
+                               ([4, 2, 2, 3], [3, 2, 4], [3, 1, 0], [0, 1, 2]), ([3, 3], [3, 3], [0, 1], [1, 0])):
+            base = {"sa": sa, "sb": sb, "xd": xd, "yd": yd}
+            out.append(dict(base, bad=None))
+            out += self.equal_product_extents(base)
+        return out
+
+    @staticmethod
+    def equal_product_extents(base):
+        """two contracted extents of the other tensor swapped / refactored: the matricized product still conforms"""
+        out = []
+        t2, yd = base["sb"], base["yd"]
+        for ja, jb in itertools.combinations(yd, 2):
+            for x, y in equal_products(t2[ja], t2[jb]):
+                t3 = list(t2)
+                t3[ja], t3[jb] = x, y
+                out.append(dict(base, sb=t3, bad="extent mismatch, equal product"))
         return out
 
     def run(self, c, r):
@@ -963,6 +1035,36 @@ class Constructors(Op):
                 for L2 in (L + 1, L - 1):
                     if L2 % (sum(s) + (1 if cw else 0)) != 0:
                         out.append({"k": "from_vector", "shape": s, "n": L2, "cw": cw, "bad": "data length"})
+                # data of the right length that is not a vector: arrays of order 3, 4 with singleton axes in every
+                # position, matrices with several rows and columns, a 0-d array; rows and columns are vectors
+                for ds in ([L], [L, 1], [1, L]):
+                    out.append({"k": "vector_data", "shape": s, "dshape": ds, "cw": cw, "bad": None})
+                for ds in ([L, 1, 1], [1, L, 1], [1, 1, L], [L, 1, 1, 1], [1, 1, 1, L], []) + tuple(
+                        [a, L // a] for a in range(2, L) if L % a == 0)[:3]:
+                    out.append({"k": "vector_data", "shape": s, "dshape": ds, "cw": cw, "bad": "data not a vector"})
+            # sptensor(subs, vals, shape) with only one of subs / vals (with and without a shape)
+            for sh in (s, None):
+                for gs, gv in ((True, True), (False, False), (True, False), (False, True)):
+                    out.append({"k": "sptensor_given", "shape": sh, "subs": gs, "vals": gv, "nsubs": rng.choice([1, 2]),
+                                "bad": None if gs == gv else ("subs without vals" if gs else "vals without subs")})
+            # sptenmat(subs, vals, rdims, cdims, tshape): one of subs / vals only; either without a mode split
+            for gs, gv in ((True, True), (False, False), (True, False), (False, True)):
+                for gd in ("none", "rdims", "cdims", "both"):
+                    for gt in ((True, False) if gd == "none" else (True,)):
+                        bad = None
+                        if gs != gv:
+                            bad = "subs without vals" if gs else "vals without subs"
+                        elif gs and gd == "none":
+                            bad = "entries without a mode split"
+                        out.append({"k": "sptenmat_given", "tshape": s, "subs": gs, "vals": gv, "dims": gd != "none",
+                                    "which": gd, "tshape_given": gt, "split": rng.randint(0, N), "bad": bad})
+            # an integer ARRAY as shape: at most one axis longer than 1
+            for via in ("tensor", "sptensor", "from_vector"):
+                for ash in ([N], [N, 1], [1, N], [1, 1, N], [N, 1, 1]):
+                    out.append({"k": "shape_array", "via": via, "shape": s, "ashape": ash, "bad": None})
+                for ash in ([0, 2], [0, 3], [2, 0], [0, 2, 1], [0, 0], [N, 2], [2, N], [1, N, 2], [N, N]):
+                    if len([e for e in ash if e != 1]) > 1:
+                        out.append({"k": "shape_array", "via": via, "shape": s, "ashape": ash, "bad": "shape array with several axes"})
         return out
 
     def run(self, c, r):
@@ -1026,6 +1128,45 @@ class Constructors(Op):
             return (lambda: ttb.sptenmat(subs, vals, arr(c["rdims"]), arr(c["cdims"]), tuple(c["tshape"]), copy=c["copy"])), None
         if k == "from_vector":
             return (lambda: ttb.ktensor.from_vector(np.ones(c["n"]), tuple(c["shape"]), c["cw"])), None
+        if k == "vector_data":
+            data = mk_nd(r, c["dshape"])
+            return (lambda: ttb.ktensor.from_vector(data, tuple(c["shape"]), c["cw"])), None
+        if k == "sptensor_given":
+            s0 = c["shape"] or [2, 3]
+            cells = r.sample(gen.all_subs(s0), min(c["nsubs"], gen.numel(s0)))
+            subs = np.array(cells, dtype=int).reshape(len(cells), len(s0)) if c["subs"] else None
+            vals = mk_vec(r, len(cells)).reshape(-1, 1) if c["vals"] else None
+            shape = None if c["shape"] is None else tuple(c["shape"])
+            return (lambda: ttb.sptensor(subs, vals, shape)), None
+        if k == "sptenmat_given":
+            s0 = c["tshape"]
+            N = len(s0)
+            rd, cd = list(range(c["split"])), list(range(c["split"], N))
+            mr, mc = gen.numel([s0[d] for d in rd]), gen.numel([s0[d] for d in cd])
+            kw = {}
+            if c["subs"]:
+                kw["subs"] = np.array([[r.randrange(mr), r.randrange(mc)]], dtype=int)
+            if c["vals"]:
+                kw["vals"] = np.array([[float(r.choice([1, 2, 3]))]])
+            if c["which"] in ("rdims", "both"):
+                kw["rdims"] = arr(rd)
+            if c["which"] in ("cdims", "both"):
+                kw["cdims"] = arr(cd)
+            if c["tshape_given"]:
+                kw["tshape"] = tuple(s0)
+            return (lambda: ttb.sptenmat(**kw)), None
+        if k == "shape_array":
+            s0, ash = c["shape"], c["ashape"]
+            n = gen.numel(ash)
+            # the entries: the extents of `shape` (repeated as often as needed)
+            ext = [s0[i % len(s0)] for i in range(n)]
+            A = np.array(ext, dtype=int).reshape(tuple(ash))
+            if c["via"] == "sptensor":
+                return (lambda: ttb.sptensor(shape=A)), None
+            if c["via"] == "from_vector":
+                return (lambda: ttb.ktensor.from_vector(np.ones(2 * sum(ext)), A, False)), None
+            data = np.ones(gen.numel(ext)) if n else np.array([])
+            return (lambda: ttb.tensor(data, shape=A)), None
         raise ValueError(k)
 
 
@@ -1322,6 +1463,15 @@ class Reconstruct(Op):
                 out.append(dict(b, samples=[{"k": "idx", "max": 0}, {"k": "idx", "max": 0}], bad="number of samples"))
                 out.append(dict(b, modes=[m - N], samples=[{"k": "idx", "max": 0}], bad="mode<0", pending=True))
                 out.append(dict(b, modes=[m, m], samples=[{"k": "idx", "max": 0}, {"k": "idx", "max": 0}], bad="mode repeated", pending=True))
+            # ONE sample (in a list, or a bare number) for several modes / for all modes (none named)
+            one = [{"k": "idx", "max": 0}]
+            for sc in (False, True):
+                out.append({"shape": s, "modes": [0], "samples": one, "scalar": sc, "bad": None})
+                out.append({"shape": s, "modes": [N - 1], "samples": one, "scalar": sc, "bad": None})
+                for ms in ([0, 1], [1, 0], list(range(N)), [N - 1, 0]):
+                    out.append({"shape": s, "modes": ms, "samples": one, "scalar": sc, "bad": "one sample, several modes"})
+                out.append({"shape": s, "modes": None, "samples": one, "scalar": sc, "bad": "one sample, several modes"})
+            out.append({"shape": s, "modes": [0, 1], "samples": [{"k": "mat", "rows": 5, "cols": s[0]}], "bad": "one sample, several modes"})
             out.append({"shape": s, "modes": [N], "samples": [{"k": "idx", "max": 0}], "bad": "mode=N"})
             out.append({"shape": s, "modes": None, "samples": None, "bad": None})
             out.append({"shape": s, "modes": None, "samples": [{"k": "idx", "max": 0} for _ in s], "bad": None})
@@ -1336,6 +1486,8 @@ class Reconstruct(Op):
                 return np.array(sorted({0, x["max"]}), dtype=int)
             return mk_mat(r, x["rows"], x["cols"])
         samples = None if c["samples"] is None else [mk(x) for x in c["samples"]]
+        if c.get("scalar"):
+            samples = 0
         return (lambda: T.reconstruct(samples, c["modes"])), T
 
 
@@ -1583,10 +1735,23 @@ class Khatrirao(Op):
                             m2 = [list(m) for m in ms]
                             m2[j][1] = C
                             out.append({"mats": m2, "rev": rev, "bad": "column count"})
+                # an argument that is not a matrix (first, later or only one), its second extent the common column
+                # count so that the column test has nothing to object to; vectors; the same through `shapes` unspoilt
+                out.append({"mats": ms, "shapes": [list(m) for m in ms], "rev": rev, "bad": None})
+                j = rng.randrange(k)
+                a, b = ms[j][0], rng.choice([1, 2, 4])
+                for nd in ([a, R, b], [a, R, 1], [a, b, R], [1, a, R], [a, R, 1, 1], [R], [a]):
+                    for jj in sorted({0, j, k - 1}):
+                        sh = [list(m) for m in ms]
+                        sh[jj] = nd
+                        out.append({"mats": ms, "shapes": sh, "rev": rev, "bad": "argument not a matrix"})
         out.append({"mats": [], "rev": False, "bad": "no matrix"})
         return out
 
     def run(self, c, r):
+        if c.get("shapes") is not None:
+            nds = [mk_nd(r, sh) for sh in c["shapes"]]
+            return (lambda: ttb.khatrirao(*nds, reverse=c["rev"])), None
         ms = [mk_mat(r, a, b) for a, b in c["mats"]]
         return (lambda: ttb.khatrirao(*ms, reverse=c["rev"])), None
 
@@ -2056,7 +2221,9 @@ class Malformed(Family):
                 "C19_rejects_import_data", "C19_rejects_from_aggregator_extents", "C19_rejects_sptensor_extents",
                 "C19_accepts_sptensor_extents", "C19_rejects_ttsv_multiplicand",
                 "C19_rejects_ttensor_components", "C19_rejects_ktensor_typed", "C19_rejects_subdims",
-                "C19_rejects_sp_assign", "C19_receiver_unchanged_sp_assign")
+                "C19_rejects_sp_assign", "C19_receiver_unchanged_sp_assign", "C19_rejects_ttv_multiplicand",
+                "C19_rejects_khatrirao_order", "C19_rejects_sptensor_given", "C19_rejects_sptenmat_given",
+                "C19_rejects_nonvector", "C19_rejects_shape_array")
 
     def gen(self, rng, tier):
         out = []
